@@ -319,9 +319,20 @@ def r10(cx):
     for c in cps:
         refreshed = False
         for s_ in own_nodes(su):
-            if isinstance(s_, ast.Assign) and norm(s_.targets[0]).startswith("self._offsets") and ("_from_buffer(" in norm(s_.value)) and fl.ordered_before(c, s_):
-                same_arm = {id(x.test) for x in fl.conds_at(c)} <= {id(x.test) for x in fl.conds_at(s_)}
-                loops = fl.loops_at(s_)
+            if not (isinstance(s_, ast.Assign) and fl.ordered_before(c, s_)):
+                continue
+            tgt = norm(s_.targets[0])
+            fills = []  # statements that compute the refreshed offsets from the buffer
+            if tgt.startswith("self._offsets") and "_from_buffer(" in norm(s_.value):
+                fills = [s_]
+            elif tgt == "self._offsets" and isinstance(s_.value, ast.Name):
+                # rebinding through a local container: fresh dict filled from the buffer before the rebinding
+                loc = s_.value.id
+                fills = [x for x in own_nodes(su) if isinstance(x, ast.Assign) and isinstance(x.targets[0], ast.Subscript) and norm(x.targets[0].value) == loc
+                         and "_from_buffer(" in norm(x.value) and fl.ordered_before(c, x) and fl.ordered_before(x, s_)]
+            for x in fills:
+                same_arm = {id(y.test) for y in fl.conds_at(c)} <= {id(y.test) for y in fl.conds_at(x)} and {id(y.test) for y in fl.conds_at(c)} <= {id(y.test) for y in fl.conds_at(s_)}
+                loops = fl.loops_at(x)
                 full = (not loops) or norm(loops[-1].iter) in ("self._d_fields", "self._fields")
                 if same_arm and full:
                     refreshed = True
